@@ -4,6 +4,7 @@ package c03
 // interleaving of block additions and head reverts, for both state backends.
 
 import (
+	"errors"
 	"fmt"
 	"testing"
 
@@ -51,6 +52,7 @@ func TestCheck(t *testing.T) {
 				Visit: func(n *hist.Node, bc *blockchain.Blockchain) {
 					q := checkNode(r, n, bc, label)
 					r.Add("evaluations", int64(q))
+					abandoned(r, n, newState, vc.at, label)
 					// the same history on one long-lived node (no restart between the operations)
 					if len(n.Ops) >= 2 {
 						lbc, ld, err := n.ReplayLongLived(newState)
@@ -83,6 +85,58 @@ func TestCheck(t *testing.T) {
 		"in every distinct state every retained block x {by number, by hash, head} x every (contract, slot) / nonce / class hash / class / casm hash of the universe is read and compared with the dictionary state", depth))
 	r.Assume = append(r.Assume, "block alphabet of mc/chain/alphabet.go; Pedersen/Poseidon primitives trusted", "go map iteration order inside juno not controlled")
 	r.Finish()
+}
+
+var errSigner = errors.New("scripted signer failure")
+
+// abandoned: a state transition that is computed and then dropped must leave no trace. For every block of the alphabet
+// on top of this state: (a) Blockchain.Simulate of it (what the block builder does with every proposal), (b) a Finalise
+// of it whose signer fails (after the state update ran). The durable image must be byte-identical afterwards; if it is
+// not, the whole read sweep is run on the changed node so that the report names the wrong answers.
+func abandoned(r *ev.Run, n *hist.Node, newState bool, at func(uint64) string, label string) {
+	var st *chain.State
+	var num uint64
+	head := n.Head()
+	if head != nil {
+		st, num = head.State, head.Block.Number+1
+	}
+	for _, nm := range chain.Alphabet(st, num, at(num)) {
+		for _, how := range []string{"simulate", "finalise-with-failing-signer"} {
+			e, err := chain.Build(head, nm.Spec)
+			if err != nil {
+				continue
+			}
+			d := n.DB.Copy()
+			bc := chain.NewNode(d, newState)
+			e.Block.Signatures = nil
+			var opErr error
+			pan, msg := ev.Guard(func() {
+				if how == "simulate" {
+					_, opErr = bc.Simulate(e.Block, e.SU, e.Classes, nil)
+				} else {
+					opErr = bc.Finalise(e.Block, e.SU, e.Classes, func(_, _ *felt.Felt) ([]*felt.Felt, error) { return nil, errSigner })
+				}
+			})
+			r.Add("abandoned_transitions", 1)
+			r.Add("evaluations", 1)
+			if pan {
+				r.Violate("abandoned-transition-panics "+how+" "+label+n.Exotic(), map[string]any{"path": n.PathString(), "block": nm.Name, "panic": msg})
+				continue
+			}
+			if how != "simulate" && opErr == nil {
+				r.Violate("finalise-succeeds-although-signer-failed "+label, map[string]any{"path": n.PathString(), "block": nm.Name})
+				continue
+			}
+			if chain.ImageHash(d) == n.Key {
+				r.Outcome("abandoned transition leaves no trace (" + how + ")")
+				continue
+			}
+			r.Violate("abandoned-transition-changes-durable-state "+how+" "+label+n.Exotic(), map[string]any{"path": n.PathString(), "abandoned_block": nm.Name,
+				"op_error": fmt.Sprint(opErr), "image_diff": chain.DiffImages(chain.Image(n.DB), chain.Image(d))})
+			// which reads are wrong now (same dictionary state as before the abandoned transition)
+			checkNode(r, n, chain.NewNode(d, newState), label+" [after abandoned "+how+"]")
+		}
+	}
 }
 
 var (
